@@ -325,9 +325,13 @@ def cmd_check(pid, tier):
         errs = []
         for u in b["unknown"][:4]:
             try:
-                scn, v, dig, minimised = shrink.minimise(pid, u, budget_s=float(os.environ.get("VERIF_SHRINK_S", "120")))
-                path = core.write_replay(pid, u["seed"], scn, v, dig, minimised)
-                ok, out = _fresh_replay(path)
+                ok, out, v = False, "", u["violation"]
+                try:
+                    scn, v, dig, minimised = shrink.minimise(pid, u, budget_s=float(os.environ.get("VERIF_SHRINK_S", "120")))
+                    path = core.write_replay(pid, u["seed"], scn, v, dig, minimised)
+                    ok, out = _fresh_replay(path)
+                except HarnessError as e:
+                    minimised, out = True, str(e)  # does not reproduce on its own in this process: try the fallbacks
                 if not ok and minimised:
                     # the minimiser runs many candidates in ONE process; if the system under test keeps process-wide state
                     # the minimised scenario may depend on it: fall back to the scenario exactly as generated
